@@ -101,6 +101,7 @@ class SimTransport:
         self.nwrites = 0
         self.written = 0
         self.unix = unix
+        self.broken = False              # reset: the socket is dead, writes go nowhere
         if unix:
             directlyProvides(self, tiface.IUNIXTransport)
 
@@ -111,6 +112,12 @@ class SimTransport:
         if self.state == LOST or not data:
             return
         data = bytes(data)
+        if self.broken:
+            # the socket is dead but the application has not been told yet
+            self.sim.log('w-dead', self.name, len(data))
+            for t in self.taps:
+                t(data)
+            return
         p = self.out
         if not p.buf:
             self.sim.wseq += 1
@@ -219,6 +226,7 @@ class Connection:
                 p.bounds = [b for b in p.bounds if b <= p.total]
                 p.fds = [(pos, fd) for pos, fd in p.fds if pos < p.total]
         for t in (self.a, self.b):
+            t.broken = True
             if t.state != LOST:
                 t.eof = True
                 t.eof_reason = tierror.ConnectionLost()
